@@ -33,7 +33,24 @@ def all_obligations():
 
 
 def for_property(prop, tier):
-    return [o for o in _OBS if prop in o["props"] and (tier == "thorough" or o["tier"] == "quick")]
+    obs = [o for o in _OBS if prop in o["props"] and (tier == "thorough" or o["tier"] == "quick")]
+    # C01 is the f64 claim, C02 the f32 claim: instantiation-specific obligations go to their own property
+    if prop == "C01":
+        obs = [o for o in obs if not o["id"].endswith("_f32") and "_f32_" not in o["id"]]
+    if prop == "C02":
+        obs = [o for o in obs if not o["id"].endswith("_f64") and "_f64_" not in o["id"]]
+    return obs
+
+
+def features_for(prop, o, tier):
+    """Configurations an obligation runs in.  Quick: its first configuration - except for C05
+    (configuration independence), whose quick tier runs the OTHER configurations (at most two),
+    the first one being covered by the checks of the other properties."""
+    if tier == "thorough":
+        return list(o["features"])
+    if prop == "C05":
+        return list(o["features"][1:3]) or list(o["features"][:1])
+    return list(o["features"][:1])
 
 
 COMMON_TRUSTED = [
@@ -54,7 +71,7 @@ NOT_APPLICABLE = {
 # --------------------------------------------------------------------------- C18
 RND = ["rounding::round", "rounding::round_nearest_tie_even", "rounding::round_down",
        "mask::lower_n_mask", "mask::lower_n_halfway", "mask::nth_bit"]
-C18_DEP = ["C18", "C01", "C02", "C07", "C09", "C05"]
+C18_DEP = ["C18", "C01", "C02", "C07", "C09"]
 for t, rng in (("f64", "[-63,2100]"), ("f32", "[-63,320]")):
     K("c18_round_rne_" + t, "rounding", C18_DEP,
       "round::<%s>(nearest-even cb) : requires mant>=2^63, exp in %s ; ensures packed (exp<<ms|mant) is the IEEE encoding of the float nearest to mant*2^(exp-bias), ties to even, incl. subnormal, promotion, carry, +inf (spec_is_rne, declarative on packed bits)" % (t, rng),
@@ -101,13 +118,13 @@ PROPERTY_META["C17"] = dict(level="proof",
 
 # --------------------------------------------------------------------------- C14 (tables)
 import tables as _tables
-X("c14_verus_lemire_table", "verus", _tables.make_runner(("lemire",)), ["C14", "C11", "C01", "C02", "C05"],
+X("c14_verus_lemire_table", "verus", _tables.make_runner(("lemire",)), ["C14", "C11", "C01", "C02", "C05", "C06", "C07", "C09", "C10"],
   "each of the 651 POWER_OF_FIVE_128 entries (literal extracted from src/table_lemire.rs) equals the 128-bit significand its definition gives: q>=0 top 128 bits of 5^q truncated; -27<=q<0 floor(2^(z+127)/5^-q)+1; q<-27 floor(2^(2z+128)/5^-q)+1 truncated to 128 bits; SMALLEST/LARGEST = -342/308",
   ["table_lemire::POWER_OF_FIVE_128", "table_lemire::SMALLEST_POWER_OF_FIVE", "table_lemire::LARGEST_POWER_OF_FIVE"])
-X("c14_verus_small_tables", "verus", _tables.make_runner(("small",)), ["C14", "C12", "C01", "C02", "C05"],
+X("c14_verus_small_tables", "verus", _tables.make_runner(("small",)), ["C14", "C12", "C01", "C02", "C05", "C06", "C07", "C09", "C10", "C04"],
   "SMALL_INT_POW5[i]==5^i (28), SMALL_INT_POW10[i]==10^i (20), LARGE_POW5 limbs == 5^135, LARGE_POW5_STEP==135, float tables' source text is 1e0..1e22 / 1e10 + zero padding",
   ["table_small::SMALL_INT_POW5", "table_small::SMALL_INT_POW10", "table_small::LARGE_POW5", "table_small::LARGE_POW5_STEP", "table_small::SMALL_F32_POW10", "table_small::SMALL_F64_POW10"])
-X("c14_verus_bellerophon_tables", "verus", _tables.make_runner(("bellerophon",), features="compact"), ["C14", "C11", "C01", "C02", "C05"],
+X("c14_verus_bellerophon_tables", "verus", _tables.make_runner(("bellerophon",), features="compact"), ["C14", "C11", "C01", "C02", "C05", "C06", "C07", "C09", "C10"],
   "BASE10_SMALL_MANTISSA[i] == 10^i normalised (exact), BASE10_LARGE_MANTISSA[i] == truncated normalised 64-bit significand of 10^(10i-350) (66), BASE10_SMALL_INT_POWERS[i]==10^i, STEP/BIAS/LOG2_MULT/LOG2_SHIFT == 10/350/217706/16",
   ["table_bellerophon::BASE10_SMALL_MANTISSA", "table_bellerophon::BASE10_LARGE_MANTISSA", "table_bellerophon::BASE10_SMALL_INT_POWERS", "table_bellerophon::BASE10_STEP/BIAS/LOG2_MULT/LOG2_SHIFT"])
 X("c14_verus_log2_formula", "verus", _tables.make_runner(("log2",)), ["C14", "C11", "C01", "C02"],
@@ -124,7 +141,7 @@ PROPERTY_META["C14"] = dict(
 
 # --------------------------------------------------------------------------- C11 (Eisel-Lemire)
 LEM_CFG = ["default", "alloc"]
-C11L = ["C11", "C01", "C02", "C07", "C09", "C04"]
+C11L = ["C11", "C01", "C02", "C07", "C09", "C04", "C05"]
 LEM = ["lemire::compute_float", "lemire::compute_product_approx", "lemire::full_multiplication", "lemire::power",
        "lemire::compute_error", "lemire::compute_error_scaled", "lemire::lemire"]
 K("c11_power_formula", "lemire", C11L, "power(q) == floor(log2 10^q) + 63 for q in [-342,308], no wrap", ["lemire::power"], features=LEM_CFG)
@@ -209,7 +226,7 @@ K("c12_bigint_pow_dispatch", "bigint", C12P, "Bigint::pow(base,exp), base in {2,
 
 # --------------------------------------------------------------------------- P-NUM / G-DISPATCH (parse.rs)
 PN = ["parse::parse_number", "parse::parse_number_fast", "parse::into_i32"]
-PNP = ["C01", "C02", "C04", "C06", "C07", "C10", "C05", "C09"]
+PNP = ["C01", "C02", "C04", "C06", "C07", "C10", "C09"]
 PNUM_CASES = ['pnum_i0_f0', 'pnum_i1_f0', 'pnum_i18_f0', 'pnum_i19_f0', 'pnum_i20_f0', 'pnum_i21_f0', 'pnum_i23_f0', 'pnum_i0_f1_z0', 'pnum_i0_f1_z1', 'pnum_i0_f2_z1', 'pnum_i0_f19_z0', 'pnum_i0_f19_z5', 'pnum_i0_f19_z19', 'pnum_i0_f20_z0', 'pnum_i0_f20_z1', 'pnum_i0_f20_z20', 'pnum_i0_f21_z1', 'pnum_i0_f21_z2', 'pnum_i0_f23_z0', 'pnum_i0_f23_z3', 'pnum_i0_f23_z4', 'pnum_i0_f23_z5', 'pnum_i0_f23_z22', 'pnum_i1_f1', 'pnum_i1_f18', 'pnum_i1_f19', 'pnum_i1_f20', 'pnum_i10_f9', 'pnum_i10_f10', 'pnum_i10_f12', 'pnum_i18_f1', 'pnum_i18_f2', 'pnum_i18_f4', 'pnum_i19_f1', 'pnum_i19_f3', 'pnum_i20_f1', 'pnum_i21_f3', 'pnum_i5_f19']
 PNUM_QUICK = ['pnum_i0_f0', 'pnum_i0_f19_z5', 'pnum_i0_f1_z1', 'pnum_i0_f20_z1', 'pnum_i0_f20_z20', 'pnum_i0_f21_z2', 'pnum_i0_f23_z4', 'pnum_i10_f10', 'pnum_i18_f2', 'pnum_i19_f0', 'pnum_i19_f1', 'pnum_i1_f18', 'pnum_i1_f19', 'pnum_i20_f0', 'pnum_i20_f1', 'pnum_i23_f0']
 for nm in PNUM_CASES:
@@ -223,7 +240,7 @@ for t in ("f64", "f32"):
 K("gdispatch_moderate_is_lemire", "parse", ["C01", "C02", "C05"], "moderate_path == lemire in non-compact builds (smoke-size domain: the wrapper has no logic)", ["parse::moderate_path"], strength="bounded", bound="mantissa < 1000, exponent 0..=5", features=["default", "alloc"], timeout=600)
 
 # --------------------------------------------------------------------------- P-SLOW (slow.rs)
-PSP = ["C01", "C02", "C04", "C06", "C07", "C05", "C09", "C10"]
+PSP = ["C01", "C02", "C04", "C06", "C07", "C09", "C10"]
 K("pslow_scientific_exponent", "slow", PSP, "scientific_exponent(num) == exponent + floor(log10 mantissa) for every u64 mantissa, |exponent| <= 2^31-21", ["slow::scientific_exponent"], features=["default", "compact"])
 for t, md in (("f64", 769), ("f32", 114)):
     K("pslow_slow_glue_" + t, "slow", PSP, "slow::<%s> with parse_mantissa / positive_digit_comp / negative_digit_comp replaced by ghost recorders: keeps %d digits; scale = scientific_exponent + 1 - digits kept; sign of scale selects the comparison; estimate passed unchanged; result returned unchanged" % (t, md), ["slow::slow"], features=["default", "compact"], zflags=("stubbing",), timeout=600)
@@ -239,8 +256,9 @@ for nm, t, k, dom in (("pslow_negative_comp_f64_k1", "f64", 1, "D < 2^24, e_b in
                       ("pslow_negative_comp_f32_k1", "f32", 1, "D < 2^24, e_b in [-60,-1] (no tie possible)"),
                       ("pslow_negative_comp_f64_k1_tie", "f64", 1, "D < 2^63, e_b in [-3,0] (exact ties reachable)"),
                       ("pslow_negative_comp_f64_k3_tie", "f64", 3, "D < 2^63, e_b in [-3,0] (exact ties reachable)"),
-                      ("pslow_negative_comp_f32_k2_tie", "f32", 2, "D < 2^40, e_b in [-6,0] (exact ties reachable)")):
-    K(nm, "slow", PSP, "negative_digit_comp::<%s>(D, fp, -%d) with Bigint::pow replaced by an exact single-limb model: result == b (estimate truncated) if D*10^-%d < b+h, next float if >, even one on a tie" % (t, k, k), ["slow::negative_digit_comp", "slow::bh", "rounding::round", "rounding::round_down"], strength="bounded", bound="%s; one limb, all scaled values < 2^64" % dom, features=["default", "compact"], zflags=("stubbing",), timeout=1500, tier="quick" if nm.endswith("k1_tie") or nm.endswith("k2_tie") else "thorough")
+                      ("pslow_negative_comp_f32_k2_tie", "f32", 2, "D < 2^40, e_b in [-6,0] (exact ties reachable)"),
+                      ("pslow_negative_comp_f32_k1_tie", "f32", 1, "D < 2^30, e_b in [-3,0] (exact ties reachable)")):
+    K(nm, "slow", PSP, "negative_digit_comp::<%s>(D, fp, -%d) with Bigint::pow replaced by an exact single-limb model: result == b (estimate truncated) if D*10^-%d < b+h, next float if >, even one on a tie" % (t, k, k), ["slow::negative_digit_comp", "slow::bh", "rounding::round", "rounding::round_down"], strength="bounded", bound="%s; one limb, all scaled values < 2^64" % dom, features=["default", "compact"], zflags=("stubbing",), timeout=1500, tier="quick" if nm == "pslow_negative_comp_f32_k1_tie" else "thorough")
 
 # --------------------------------------------------------------------------- C15 (allocation frame)
 import callgraph as _cg
@@ -290,7 +308,10 @@ BELL_CFG = ["compact", "compact_alloc", "nostd_compact"]
 BELL = ["bellerophon::bellerophon", "bellerophon::error_is_accurate", "bellerophon::normalize", "bellerophon::mul", "bellerophon::BellerophonPowers::get_small", "bellerophon::BellerophonPowers::get_large", "bellerophon::BellerophonPowers::get_small_int"]
 for t in ("f64", "f32"):
     K("c11_bell_shape_" + t, "bellerophon", C11L + ["C08", "C05"], "bellerophon::<%s>(num) for ALL Numbers: no panic/overflow/OOB/debug_assert failure; definite => fields in range, finite or +inf, never NaN; mantissa 0 or exponent <= -4096 => +0.0; exponent >= 4096 => +inf; declined => normalised, exponent un-biases into [-64, 2200]" % t, BELL, features=BELL_CFG, timeout=900)
-    K("c11_bell_band_" + t, "bellerophon", C11L + ["C06", "C05"], "error_is_accurate::<%s> band soundness: for all normalised (mant, exp), errors <= 64: accepted => every significand in (mant-errors, mant+errors) rounds (round + nearest-even callback as used) to the same packed float as mant" % t, ["bellerophon::error_is_accurate", "rounding::round", "rounding::round_nearest_tie_even"], features=BELL_CFG, timeout=900)
+    K("c11_bell_band_" + t, "bellerophon", C11L + ["C06", "C05"], "error_is_accurate::<%s> band soundness: for all normalised (mant, exp) and ALL errors (u32): accepted => every significand in (mant-errors, mant+errors) rounds (round + nearest-even callback as used) to the same packed float as mant" % t, ["bellerophon::error_is_accurate", "rounding::round", "rounding::round_nearest_tie_even"], features=BELL_CFG, timeout=900)
+    K("c11_bell_truncation_" + t, "bellerophon", C11L + ["C06", "C05"], "bellerophon::<%s> with error_is_accurate a ghost recorder and mul an arbitrary function: for ALL truncated (w != 0, q): the error bound handed to error_is_accurate >= 2^(lz(w)+2) eighth-ULPs (necessary: one unit of the truncated significand exceeds 2^(lz(w)-1) ULPs of the final mantissa), or saturated" % t, ["bellerophon::bellerophon"], features=BELL_CFG, zflags=("stubbing",), timeout=900)
+# c11_bell_truncation_error_fn (truncation_error(w) == min(8*floor((2^64-1)/w), 2^28-1)): divider-vs-multiplier relation, not discharged by cadical / kissat / z3 / cvc5 within 400 s each: NOT registered
+K("c11_bell_truncation_propagates", "bellerophon", C11L + ["C06"], "bellerophon with truncation_error a ghost returning T: the bound handed to error_is_accurate >= T", ["bellerophon::bellerophon"], features=BELL_CFG, zflags=("stubbing",), timeout=900)
 K("c11_bell_normalize", "bellerophon", C11L, "normalize: mant<<lz, exp-lz, returns lz; zero untouched", ["bellerophon::normalize"], features=BELL_CFG)
 for sfx in ("small", "large_a", "large_b", "large_c", "large_d", "large_e", "large_f"):
     K("c11_bell_mul_" + sfx, "bellerophon", C11L, "mul(x,y).mant == floor((x*y + 2^63)/2^64), exp == x.exp+y.exp+64 for every normalised x and y = each table power in the group (as constants)", ["bellerophon::mul"], strength="proved", bound="y ranges over the table entries of the group (all 76 entries over the 7 groups); x arbitrary", features=BELL_CFG[:1], timeout=3600, tier="thorough")
@@ -369,3 +390,9 @@ PROPERTY_META["C19"] = dict(
     claim="examples/simple.rs and fuzz/fuzz_targets/parse.rs are compiled verbatim as cfg(kani) modules; for EVERY byte string of length <= 8 (all 256 byte values): consumed prefix == longest match of the grammar, library called exactly once with trimmed digit runs satisfying its documented preconditions and the exponent value, sign applied once, suffix exactly the rest, nan/inf/infinity and empty match in the fuzz copy, no panic; parse_exponent saturates (10/11 digits in the thorough tier). Correct rounding of the delegated value is C01/C02.",
     note="Bounded in length (8 bytes); tests/integration_tests.rs and etc/correctness copies are textual copies of the fuzz front-end and are not separately compiled. The library call is replaced by a ghost recorder (stub).",
     assumptions=[A_BOUND, "C01/C02 for the value returned by the library"])
+
+# exact ties at negative exponents (real multiplication, one exponent per obligation)
+for t, ks in (("f64", (1, 2, 3, 4)), ("f32", (1, 5, 9, 11, 13, 15, 16, 17))):
+    for k in ks:
+        K("c11_lemire_neg_tie_%s_k%d" % (t, k), "lemire", C11L, "compute_float::<%s>(-%d, (2m+1)*5^%d) for EVERY odd significand 2m+1 of ms+2 bits: decided (not declined) and rounded to the even neighbour of the exact tie (2m+1)*2^-%d" % (t, k, k, k), LEM, strength="proved", bound="one decimal exponent (q = -%d), all ties at that exponent with an (ms+2)-bit odd part" % k, features=LEM_CFG, timeout=900,
+          tier="quick" if (t, k) in (("f64", 4), ("f64", 1), ("f32", 17), ("f32", 11), ("f32", 1)) else "thorough")
